@@ -234,6 +234,7 @@ type c36Trace struct {
 	MaxOn  []int     `json:"max_on"`
 	Err    string    `json:"err"`
 	Ops    []vregOp  `json:"ops"`
+	Res    []string  `json:"results"` // raw result of every finished call (diagnostics)
 }
 
 var c36KindCode = map[string]int{"": 0, "members": 1, "aexists": 2, "prestart": 3, "aput": 4, "aclaim": 5, "aget": 6, "aremove": 7}
@@ -431,7 +432,9 @@ func (r *c36Run) enabled(rng *verifRNG, sc c36Script, leader int) []c36Step {
 	}
 	for i, b := range r.bg {
 		if !b.Last.Finished {
-			out = append(out, c36Step{A: "dw", I: i, OK: rng.intn(100) >= sc.FailPct})
+			// no failure injection here: a failing RemoveActor makes the death watch actor itself fail, which is
+			// escalated and stops the whole actor system (outside this property)
+			out = append(out, c36Step{A: "dw", I: i, OK: true})
 		}
 	}
 	return out
@@ -472,6 +475,13 @@ func c36RunScript(t testing.TB, w *c36World, sc c36Script, idx int) c36Trace {
 			if !do(st) {
 				break
 			}
+		}
+	}
+	for _, c := range run.calls {
+		if c.th.Last.Finished {
+			tr.Res = append(tr.Res, c.th.Last.Result)
+		} else {
+			tr.Res = append(tr.Res, "")
 		}
 	}
 	c36Track.mu.Lock()
